@@ -136,5 +136,9 @@ func verifyED25519(publicKey interface{}, signature string, hash string) (bool, 
 	if err != nil {
 		return false, err
 	}
+	if len(public) != ed25519.PublicKeySize {
+		// ed25519.Verify panics on a key of any other length
+		return false, errors.New("invalid ed25519 public key length")
+	}
 	return ed25519.Verify(public, data, sign), nil
 }
